@@ -43,6 +43,22 @@ Theorem C20_unregistered_tag_is_error_top : forall E A f v tg r,
 Proof. exact untyped_target_unregistered_tag. Qed.
 Print Assumptions C20_unregistered_tag_is_error_top.
 
+(* the tag of a transform entry belongs to the transformed type: its serial form is read without it *)
+Theorem C20_transform_serial_form_read_without_own_tag : forall E A f e kind wire cur v tg r,
+  ae_kind e = ETransform kind wire -> ae_tag e = Some tg ->
+  unmarshal_entry E A (S f) e cur (Tok v (Some tg) :: r) =
+  ubind (unmarshal_bare E A f wire (zero 50 E wire) (Tok v None :: r))
+        (fun w r' => match tr_bwd kind w with Some x => UOk x r' | None => UErr (S (length r')) end).
+Proof. exact tagged_transform_hands_on_untagged. Qed.
+
+(* kernel-evaluated: a tagged transform whose serial form is interface{} (the shape of D20), in an untyped slot *)
+Definition c20_A9 := Atlas [AE (GStruct 4) (Some 60) (ETransform 9 GAny)] 0.
+Example C20_tagged_transform_with_untyped_serial_form :
+  let v := VAny (Some (GStruct 4, VStruct [VAny (Some (GStr, GVStr [118]))])) in
+  marshal_top [(4, [GAny])] c20_A9 GAny v = MOk [Tok (Str [118]) (Some 60)] /\
+  unmarshal_top [(4, [GAny])] c20_A9 GAny [Tok (Str [118]) (Some 60)] = UTDone 1 v.
+Proof. vm_compute. split; reflexivity. Qed.
+
 (* kernel-evaluated: a tagged transform inside a slice inside an untyped slot, there and back *)
 Definition c20_A := Atlas [AE (GNamed 5 GStr) (Some 50) (ETransform 1 GStr)] 0.
 Example C20_tag_inside_untyped_slice :
